@@ -29,6 +29,7 @@ fn main() {
         "fen" => hx::walk::fen_stream(&rest),
         "search" => hx::searchx::search_stream(&rest),
         "uci" => hx::ucix::uci_stream(&rest),
+        "seedcheck" => hx::walk::seedcheck(),
         _ => {
             eprintln!("usage: rce_harness zobrist|tables|walk|fen|search|uci ...");
             std::process::exit(2);
